@@ -501,7 +501,7 @@ func init() {
 	}
 	zb, cb := proof.Z.Bytes(), proof.C.Bytes()
 	enc := cat([]byte{0, byte(secParam >> 8), byte(secParam & 0xff), byte(len(zb) >> 8), byte(len(zb))}, zb, cb)
-	Register(Entry{Name: "zk/qndleq.Proof.Verify(decoded-proof)", Group: "zk", Cost: 3, LenFields: [][2]int{{1, 2}, {3, 2}},
+	Register(Entry{Name: "zk/qndleq.Proof.Verify(decoded-proof)", Group: "zk", Moduli: [][]byte{N.Bytes()}, Cost: 3, LenFields: [][2]int{{1, 2}, {3, 2}},
 		Call: func(b []byte) {
 			c := newCursor(b)
 			hd := c.take(5)
@@ -530,7 +530,7 @@ func init() {
 	// the allocation is refused by the runtime without being attempted.
 	sp := make([]byte, 8)
 	binary.BigEndian.PutUint64(sp, secParam)
-	Register(Entry{Name: "zk/qndleq.Proof.Verify(SecParam)", Group: "zk", Cost: 3, ExactLen: 8,
+	Register(Entry{Name: "zk/qndleq.Proof.Verify(SecParam)", Group: "zk", Moduli: [][]byte{N.Bytes()}, Cost: 3, ExactLen: 8,
 		Call: func(b []byte) {
 			v := binary.BigEndian.Uint64(b)
 			if v >= 1<<16 && v < 1<<52 {
